@@ -105,7 +105,7 @@ impl QSolJulData {
         }
 
         let a_ref = props.global.a_ref;
-        let q_soljul = Q_soljul / a_ref;
+        let q_soljul = if a_ref > 0.0 { Q_soljul / a_ref } else { 0.0 };
         info!(
             "q_sol;jul={:.2} kWh/m².mes, Q_soljul={:.2} kWh/mes, A_ref={:.2}",
             q_soljul, Q_soljul, a_ref
@@ -114,16 +114,20 @@ impl QSolJulData {
         // Guarda datos globales y corrige medias globales
         q_soljul_data.q_soljul = q_soljul;
         q_soljul_data.Q_soljul = Q_soljul;
-        q_soljul_data.irradiance_mean /= q_soljul_data.a_wp;
-        q_soljul_data.fshobst_mean /= q_soljul_data.a_wp;
-        q_soljul_data.gglshwi_mean /= q_soljul_data.a_wp;
-        q_soljul_data.f_f_mean /= q_soljul_data.a_wp;
+        if q_soljul_data.a_wp > 0.0 {
+            q_soljul_data.irradiance_mean /= q_soljul_data.a_wp;
+            q_soljul_data.fshobst_mean /= q_soljul_data.a_wp;
+            q_soljul_data.gglshwi_mean /= q_soljul_data.a_wp;
+            q_soljul_data.f_f_mean /= q_soljul_data.a_wp;
+        }
 
         // Completa cálcula de medias por orientación (dividiendo por area de cada orientación)
         for (_, detail) in q_soljul_data.detail.iter_mut() {
-            detail.f_f_mean /= detail.a;
-            detail.gglshwi_mean /= detail.a;
-            detail.fshobst_mean /= detail.a;
+            if detail.a > 0.0 {
+                detail.f_f_mean /= detail.a;
+                detail.gglshwi_mean /= detail.a;
+                detail.fshobst_mean /= detail.a;
+            }
         }
 
         q_soljul_data
